@@ -82,6 +82,18 @@ def check(ctx, pcirc, order, link_order, assigns, replay, setp=None):
     if len(got) != len(set(got)) or set(got) != exp or sum(len(g) for g in got) != n:
         ctx.violation("C12:partition", f"split() returned {sorted(map(sorted, got))}, connected components are {sorted(map(sorted, exp))}", replay)
         return False
+    # each returned solver is a solver in its own right: its connections are the original's connections among its structures, and
+    # the pins it reports as free are the unconnected pins of its structures (the three views of the wiring, C07, hold for it too)
+    for sub, members in zip(subs, got):
+        cons = {frozenset(((sid(a[0]), a[1].name), (sid(b[0]), b[1].name))) for a, b in sub.connections.items()}
+        want = {frozenset(((a, p), (b, q))) for (a, p, b, q) in pcirc["links"] if a in members}
+        free = sorted((sid(st), pin.name) for st, pin in sub.free_pins)
+        linked = {(a, p) for (a, p, b, q) in pcirc["links"]} | {(b, q) for (a, p, b, q) in pcirc["links"]}
+        wfree = sorted((c, p) for c in members for p in pcirc["comps"][c]["pins"] if (c, p) not in linked)
+        if cons != want or free != wfree:
+            what = "connections" if cons != want else "free pins"
+            ctx.violation("C12:sub-solver-wiring", f"sub-solver {sorted(members)}: its {what} are not those of the original restricted to its structures", replay)
+            return False
     # Lean model of the union loop on the same adjacency and declaration order
     adj = {c: [] for c in range(n)}
     for st in sol.structures:
